@@ -527,7 +527,13 @@ func runDocTmpl(c Case, emit Emitter) {
 	}()
 	emptyDoc := dtM{"body": []dtM{}, "sect": []dtM{}, "hf": []dtM{}, "parts": []dtM{}}
 	for i, op := range c.Steps {
-		ev := Ev{"ev": "step", "case": c.ID, "i": i, "op": op}
+		echo := Op{}
+		for k, v := range op {
+			if k != "plan" { // generator bookkeeping, of no interest to the judge
+				echo[k] = v
+			}
+		}
+		ev := Ev{"ev": "step", "case": c.ID, "i": i, "op": echo}
 		switch op.Name() {
 		case "Build":
 			var d dtDesc
